@@ -601,3 +601,41 @@ def resource_for(clsname, initial=ABSENT):
     if fam == "Zarr":
         return ZarrResource(initial)
     raise KeyError(clsname)
+
+
+_warmed = [False]
+
+
+def warm_siblings(clsname):
+    """Once per process: let every OTHER JSON-file class family do some ordinary work first (load nested content, see
+    it grow and change kind through an outside writer, reset, update, mutate nested children).  State that lives on a
+    shared base class or is inherited through attribute lookup (memos, registries, lazily resolved types) is then in
+    the condition a long-running program would have it in, instead of pristine."""
+    if _warmed[0]:
+        return
+    _warmed[0] = True
+    own = family_of(clsname)
+    for fam, (dcls, lcls) in JSON_FAMILIES.items():
+        if fam == own:
+            continue
+        for c, init, grown in ((dcls, {"a": {"b": [0, {"c": 0}]}, "k": 0}, {"a": {"b": [0, {"c": 0}, [1], {"d": {}}]}, "k": [{"e": 1}], "n": {"m": [{}]}}),
+                               (lcls, [0, [1, {"a": 0}]], [0, [1, {"a": 0}, [2], {"b": {}}], {"c": [{"d": 1}]}, [[3]]])):
+            res = FileResource(init)
+            try:
+                o = res.make(c)
+                o()
+                res.ext_write(grown)
+                o()
+                o.reset(init)
+                if isinstance(init, dict):
+                    o.update(grown)
+                    o["a"]["b"].append({"z": [1]})
+                    o.setdefault("s", [{"t": 1}])
+                else:
+                    o.extend(grown)
+                    o[1].append({"z": [1]})
+                    o.insert(0, [{"t": 1}])
+                o()
+            finally:
+                res.destroy()
+
